@@ -1694,11 +1694,65 @@ def value_cases(e):
         elif k == "Match":
             for arm in n["arms"]:
                 rec(arm["body"], conds + ["match %s:%s" % (t(n["e"]), t(arm["pat"]))])
+        elif k == "MethodCall" and n["method"] == "then_some" and len(n["args"]) == 1:
+            # `c.then_some(v)` is `if c { Some(v) } else { None }`
+            c = t(strip(n["recv"]))
+            some = {"k": "Call", "func": {"k": "Path", "segs": ["Some"]}, "args": [n["args"][0]], "ln": n.get("ln")}
+            none = {"k": "Path", "segs": ["None"], "ln": n.get("ln")}
+            out.append((some, conds + [c]))
+            out.append((none, conds + ["!" + c]))
         else:
             out.append((n, conds))
 
     rec(e, [])
     return out
+
+
+def result_cases(body):
+    """the values a function / closure body can produce, with the conditions for each: the tail
+    expression's value cases plus every `return v` (with the conditions enclosing it)"""
+    out = []
+    tail = None
+    b = strip(body)
+    if b.get("k") == "Block":
+        st = b["stmts"]
+        if st and st[-1].get("k") == "ExprStmt" and not st[-1].get("semi", True):
+            tail = st[-1]["e"]
+    else:
+        tail = b
+    early = []
+    for r in find(body, "Return"):
+        if r.get("e") is None:
+            continue
+        cs = enclosing_conds(body, r) or []
+        early.append(cs)
+        for leaf, c2 in value_cases(r["e"]):
+            out.append((leaf, cs + c2))
+    if tail is not None:
+        # the tail runs only when no early return fired
+        neg = []
+        for cs in early:
+            if len(cs) == 1:
+                neg.append(cs[0][1:] if cs[0].startswith("!") else "!" + cs[0])
+        outer = enclosing_conds(body, tail) or []
+        for leaf, c2 in value_cases(tail):
+            out.append((leaf, neg + outer + c2))
+    return out
+
+
+def norm_cond(c):
+    """`(!(x))` / `!x` -> canonical text with at most one leading `!`"""
+    neg = False
+    c = c.strip()
+    while True:
+        if c.startswith("!"):
+            neg = not neg
+            c = c[1:]
+        elif c.startswith("(") and c.endswith(")") and _balanced(c[1:-1]):
+            c = c[1:-1]
+        else:
+            break
+    return ("!" if neg else "") + c
 
 
 def guarded_writes(body, prefix):
@@ -1714,3 +1768,44 @@ def guarded_writes(body, prefix):
         for leaf, cs in value_cases(a["right"]):
             out.append((left, leaf, outer + cs, a))
     return out
+
+
+def inline_helpers(fn, depth=2, max_lines=60):
+    """copy of `fn`'s body in which every call to a small helper defined in the same file is replaced by
+    that helper's body (a block), its parameters replaced by the call's arguments.  Rules that walk the
+    syntax tree (conditions, calls, loops) then see the same facts whether or not a maintainer extracted
+    part of the function.  The copy's nodes keep `ln` of the helper for messages."""
+    def expand(node, cur, d):
+        if isinstance(node, list):
+            return [expand(x, cur, d) for x in node]
+        if not isinstance(node, dict):
+            return node
+        out = {k: (expand(v, cur, d) if isinstance(v, (dict, list)) and k != "tokens" else v) for k, v in node.items()}
+        if d <= 0:
+            return out
+        name = args = None
+        if out.get("k") == "MethodCall" and ident(strip(out["recv"])) == "self":
+            name, args = out["method"], out["args"]
+        elif out.get("k") == "Call":
+            segs = path_segs(out["func"])
+            if segs and (len(segs) == 1 or (len(segs) == 2 and segs[0] == "Self")):
+                name, args = segs[-1], out["args"]
+        if name is None:
+            return out
+        callee = _same_file_fn(cur, name)
+        if callee is None or callee is cur or not callee.get("body") or (callee["body"].get("le", 0) - callee["body"].get("ln", 0)) > max_lines:
+            return out
+        params = [binding_name(i["pat"]) for i in callee["sig"]["inputs"] if isinstance(i, dict) and "pat" in i]
+        if len(params) != len(args) or None in params:
+            return out
+        body = callee["body"]
+        for p, a in zip(params, args):
+            a2 = strip(a)
+            if a2 is not None and ident(a2) != p and not any(x.get("k") in ("Closure", "Block", "Macro") for x in walk(a2)):
+                body = _subst(body, p, a2)
+        body = expand(body, callee, d - 1)
+        body = dict(body)
+        body["_inlined"] = name
+        return body
+
+    return expand(fn["body"], fn, depth)
